@@ -23,6 +23,12 @@ func init() {
 		"Decides: dimensional homogeneity in the earth radius of all 18 Forward/Reverse bodies (so inversion for R=1 implies inversion for every R), the zero guard of the removable singularity at the projection centre, and atan2-based longitude recovery for projections with a settable centre.",
 		"that the formulas are the right projection, their equal-area/conformal/equidistant character (needs calculus on the formulas, another technique family), numeric accuracy of the inverse.")
 	setProp("C03", "DESIGN.md §4 C03",
-		"Decides: vertex probes against other rings treat 'on the boundary' as inconclusive (three-valued consumption), so the nested/inside verdicts cannot depend on a ring's start vertex.",
+		"Decides: vertex probes against other rings treat 'on the boundary' as inconclusive (three-valued consumption), so the nested/inside verdicts cannot depend on a ring's start vertex; every decoder and validating operation validates exactly the value it returns on every success path unless NoValidate was passed, returns the validation error, and no adapter disables validation.",
 		"completeness of the rule set with respect to the OGC validity definition; correctness of the segment-intersection and simplicity algorithms.")
+	setProp("C09", "DESIGN.md §4 C09",
+		"Decides: comma-ok discipline at every call of a flag-returning accessor (an empty Point's zero XY is never used as a position in Intersects/Distance kernels).",
+		"agreement of Intersects/Distance with exact geometry and with Relate; numeric distance.")
+	setProp("C15", "DESIGN.md §4 C15",
+		"Decides: comma-ok discipline (empty members cannot contribute a (0,0) endpoint to Boundary or a candidate to PointOnSurface).",
+		"that Boundary is the DE-9IM boundary and that PointOnSurface is interior.")
 }
